@@ -120,7 +120,7 @@ theorem decOK_decode (c : Codec) {sch : Scheme} {sym : Nat → Bytes} {k e sbn :
         split
         · exact ⟨hsch, hD, rfl, hs', hb⟩
         · rename_i out hco
-          refine ⟨hsch, hD, rfl, hs', ?_⟩
+          refine ⟨hsch, hD, rfl, hs, ?_⟩
           intro x hx
           simp at hx
           rw [← hx, hD]
